@@ -753,6 +753,63 @@ func LoadEngine(dir string, patterns []string) (*Engine, error) {
 
 // scanNullability marks struct fields that the module compares with nil and
 // module functions that return a literal nil for a pointer result.
+
+// scanFuncFieldLits: a func-typed field left out of a keyed struct literal is
+// nil until somebody sets it. Such a field may be nil unless the function that
+// builds the literal also assigns the field (constructors that fill it in a
+// second step).
+func (e *Engine) scanFuncFieldLits(info *types.Info, body ast.Node) {
+	assigned := map[*types.Var]bool{}
+	ast.Inspect(body, func(n ast.Node) bool {
+		if as, ok := n.(*ast.AssignStmt); ok {
+			for _, l := range as.Lhs {
+				if sel, ok := ast.Unparen(l).(*ast.SelectorExpr); ok {
+					if s := info.Selections[sel]; s != nil {
+						if v, ok := s.Obj().(*types.Var); ok {
+							assigned[v] = true
+						}
+					}
+				}
+			}
+		}
+		return true
+	})
+	ast.Inspect(body, func(n ast.Node) bool {
+		x, ok := n.(*ast.CompositeLit)
+		if !ok {
+			return true
+		}
+		tv, ok := info.Types[x]
+		if !ok {
+			return true
+		}
+		_, stt := structOf(derefType(tv.Type))
+		if stt == nil {
+			return true
+		}
+		given := map[string]bool{}
+		keyed := len(x.Elts) == 0
+		for _, el := range x.Elts {
+			if kv, ok := el.(*ast.KeyValueExpr); ok {
+				keyed = true
+				if id, ok := kv.Key.(*ast.Ident); ok {
+					given[id.Name] = true
+				}
+			}
+		}
+		if !keyed {
+			return true
+		}
+		for i := 0; i < stt.NumFields(); i++ {
+			f := stt.Field(i)
+			if _, isFn := unalias(f.Type()).Underlying().(*types.Signature); isFn && !given[f.Name()] && !assigned[f] {
+				e.nullableFields[f] = true
+			}
+		}
+		return true
+	})
+}
+
 func (e *Engine) scanNullability() {
 	for _, p := range e.pkgs {
 		info := p.TypesInfo
@@ -779,8 +836,12 @@ func (e *Engine) scanNullability() {
 			for _, decl := range f.Decls {
 				fd, ok := decl.(*ast.FuncDecl)
 				if !ok || fd.Body == nil {
+					if gd, ok := decl.(*ast.GenDecl); ok {
+						e.scanFuncFieldLits(info, gd)
+					}
 					continue
 				}
+				e.scanFuncFieldLits(info, fd.Body)
 				obj, _ := info.Defs[fd.Name].(*types.Func)
 				if obj == nil {
 					continue
